@@ -899,6 +899,24 @@ fn gen_component(rng: &mut Rng, sw: &Swarm, index: usize) -> Component {
         let d = gen_definition(rng, &mut cx);
         defs.insert(name.clone(), d);
     }
+    // a bare-reference alternative of an untagged enum stays only when it names a
+    // struct: next to `string` and `integer` that keeps the alternatives mutually
+    // exclusive (an overlapping anyOf is a different construct for typify: a struct
+    // of flattened options)
+    let snapshot: Defs = defs.clone();
+    for (_name, d) in defs.iter_mut() {
+        if let Some(Value::Array(alts)) = d.get_mut("anyOf") {
+            for alt in alts.iter_mut() {
+                if let Some(Value::String(r)) = alt.get("$ref") {
+                    let target = r.strip_prefix("#/definitions/").and_then(|n| snapshot.get(n));
+                    let is_struct = target.map(|t| t.get("type") == Some(&json!("object")) && t.get("properties").is_some()).unwrap_or(false);
+                    if !is_struct {
+                        *alt = json!({"type": "boolean"});
+                    }
+                }
+            }
+        }
+    }
     // second pass: defaults
     if sw.defaults > 0 {
         let defs_model: Defs = defs.clone();
